@@ -3,6 +3,7 @@ import json
 import os
 import re
 import vlib
+import l2
 
 TRUSTED_BASE = [
     'Lean 4.33 kernel; axioms per theorem as listed under coverage.theorems (allow-list: propext, Classical.choice, Quot.sound); no sorry/admit/native_decide/bv_decide/own axioms (grep + #print axioms on every run)',
@@ -14,13 +15,60 @@ TRUSTED_BASE = [
 
 CMP = 'DeriveExModel.Props.'
 
+
+def extra_cmp_l2(fam, kinds, nq, nt, laws=False):
+    """L2 for the comparison family: compiled programs, every ordered pair of values of small domains;
+    expected rows come from the model's semantics (= the documented rule, by the C01/C06 theorems)."""
+    def run(prop, tier, seed, violation, known, known_hit, notes):
+        ok, log = l2.build_pm()
+        if not ok:
+            violation('pm-build', dict(what='the proc-macro does not build', log=log), no_input=True)
+            return {}
+        n = nq if tier == 'quick' else nt
+        res = l2.run_family(prop, fam, seed, n)
+        for cfail in res['compile_failures'][:3]:
+            violation(f'l2-{fam}-compile-{cfail.get("start")}', dict(
+                what='a generated program that the expander accepted does not compile',
+                detail=cfail), no_input=False)
+        rel = [m for m in res['mismatches'] if m.get('kind') != 'behaviour' or m['observed'].split(' ')[1] in kinds
+               or m['expected'].split(' ')[1] in kinds]
+        for i, m in enumerate(rel[:5]):
+            violation(f'l2-{fam}-{i}', dict(
+                what='behaviour of the compiled impl differs from the documented rule on a concrete input',
+                property=prop, **m,
+                how_to_read='row = value index a within the trait block; the first differing column is value index b; values are listed in `vs` of the module in the program file'))
+        cov = dict(l2=dict(family=fam, types=res['types'], rows=res['rows'], cells_compared=res['cells'],
+                           mismatches=len(res['mismatches']), compile_failures=len(res['compile_failures']),
+                           distribution=res['stats'], seed=seed,
+                           sample_types=list(res['sources'].values())[:3]))
+        if laws:
+            bad, checked = l2.law_violations(res['observed'], res['sources'])
+            cov['l2']['law_checks'] = checked
+            for i, b in enumerate(bad[:5]):
+                violation(f'l2-law-{i}', dict(what='derived impls disagree with one another on a concrete pair of values',
+                                              property=prop, **b))
+        return cov
+    return run
+
 PROPS = {
     'C01': dict(
         theorems=[(CMP + 'C01', ['DX.eq_follows_doc', 'DX.partial_cmp_follows_doc', 'DX.cmp_follows_doc',
                                  'DX.body_independent_of_entry'])],
         l1=[('cmp1', 'all', 'all'), ('cmp1all', 20000, 'all'), ('cmpN', 4000, 200000), ('cmpWild', 1000, 50000)],
         labels=r':(PartialEq|PartialOrd|Ord)$',
+        extra=extra_cmp_l2('cmpRun', ('eq', 'pcmp', 'cmp'), 1200, 24000),
         explanation='theorems: for every item, accepted attribute placement, environment and value pair the generated ==/partial_cmp/cmp equal the documented lexicographic rule; L1: the exhaustive 3136-combination single-field matrix x 4 shapes x 2 entry points (x 31 trait sets in the thorough tier) plus random multi-field items, compared token for token',
+    ),
+    'C02': dict(
+        theorems=[(CMP + 'C02', ['DX.sel_isSome_eq_anyKeyBy', 'DX.skip_uniform', 'DX.rev_uniform',
+                                 'DX.eq_iff_cmp_equal', 'DX.pcmp_eq_some_cmp', 'DX.eq_iff_pcmp_equal', 'DX.eq_imp_hash_eq',
+                                 'DX.cmp_swap', 'DX.eq_refl_symm', 'DX.eq_trans_fields']),
+                  (CMP + 'C05', ['DX.trait_error_iff_misuse'])],
+        l1=[('cmp1', 'all', 'all'), ('cmp1all', 20000, 'all'), ('cmpN', 2000, 100000)],
+        labels=r':(PartialEq|PartialOrd|Ord|Eq|Hash)$',
+        extra=extra_cmp_l2('lawRun', ('eq', 'pcmp', 'cmp', 'hash'), 1200, 24000, laws=True),
+        explanation='theorems: for every item and every coherent environment (one key per field, lawful field impls) the accepted impls agree: == iff partial_cmp==Some(Equal) iff cmp==Equal, partial_cmp==Some(cmp), == implies equal hasher feeds, cmp flips under swap, == is an equivalence; refusal of everything else is C05.trait_error_iff_misuse. cmp transitivity (<=) is not proved (partial): it is covered by the model-free law checks of L2 only. L2: compiled programs with one consistent key, all pairs and triples of values, laws checked on the observed results without any model',
+        level_text='Lean 4 theorems over the model (coherence of all accepted combinations, by case analysis over the attribute record and induction over field lists) + exhaustive L1 on the 3136-combination matrix + model-free law checks on compiled programs; transitivity of cmp is checked (L2) but not proved',
     ),
     'C05': dict(
         theorems=[(CMP + 'C05', ['DX.field_error_iff_misuse', 'DX.trait_error_iff_misuse', 'DX.valid_use_accepted',
@@ -33,6 +81,7 @@ PROPS = {
         theorems=[(CMP + 'C06', ['DX.feed_follows_doc', 'DX.equal_inputs_equal_feed', 'DX.feed_injective'])],
         l1=[('cmp1', 'all', 'all'), ('cmpN', 4000, 200000)],
         labels=r':Hash$',
+        extra=extra_cmp_l2('cmpRun', ('hash',), 1200, 24000),
     ),
     'C17': dict(
         theorems=[(CMP + 'C17', ['DX.eq_assert_exact'])],
